@@ -592,14 +592,23 @@ inline void validate_nf(sym s) { Ctx &c=ctx(); if (!s.valid()) return; QEval &q=
 // concolic refutation: exact rational evaluation at the current path's witness point (the solver's model of the path prefix, or the
 // hint point on the first path), with every cut variable bound to the division it stands for.  Only if the whole path condition, the
 // stated assumptions and the non-zero-divisor conditions hold EXACTLY at that point and the obligation is false there, it is reported.
-inline bool q_rel(int cmp, id_t a, id_t b, bool &ok) { QEval &q=qeval(); mpq_class x,y; if (!q.val_q(a,x) || !q.val_q(b,y)) { ok=false; return false; } return cmp==EQ ? x==y : cmp==LT ? x<y : x<=y; }
+// exact rational evaluation where possible; where a value is irrational (square root of a non-square) a long-double evaluation with a clear margin
+// (1e-9 relative) is accepted instead -- a point found this way is only a CANDIDATE: it is reported only after the concrete replay on both builds confirms it
+inline bool q_rel(int cmp, id_t a, id_t b, bool &ok) { QEval &q=qeval(); mpq_class x,y; if (q.val_q(a,x) && q.val_q(b,y)) return cmp==EQ ? x==y : cmp==LT ? x<y : x<=y;
+    Ctx &c=ctx(); long double u=c.ev(a), v=c.ev(b); if (u!=u || v!=v || std::isinf((double)u) || std::isinf((double)v)) { ok=false; return false; }
+    long double sc=std::max<long double>(1,std::max(std::fabs(u),std::fabs(v))), d=(u-v)/sc; if (std::fabs(d) < 1e-9L) { ok=false; return false; }     // too close to call
+    return cmp==EQ ? false : d<0; }
 inline bool q_f(const F &f, bool &ok) { switch (f.k) { case F::REL: return q_rel(f.cmp,f.a,f.b,ok); case F::TRUE_: return true; case F::NOT: return !q_f(f.kids[0],ok);
     case F::AND: { bool r=true; for (auto &k : f.kids) { bool v=q_f(k,ok); if (!ok) return false; r=r&&v; } return r; } default: { bool r=false; for (auto &k : f.kids) { bool v=q_f(k,ok); if (!ok) return false; r=r||v; } return r; } } }
 inline bool witness_refutes(const F &f, Violation &v) { Ctx &c=ctx(); if (c.concrete_mode) return false; QEval &q=qeval(); q.rmemo.clear(); q.amemo.clear(); q.wit_snapshot.clear(); q.force_defs=true; bool ok=true, res=false;
-    do { bool fv=q_f(f,ok); if (!ok || fv) break;
-        bool pcok=true; for (auto &p : c.pc) { bool r=q_rel(p.cmp,p.a,p.b,ok); if (!ok || r!=p.truth) { pcok=false; break; } } if (!pcok) break;
-        for (auto &a : assumed_fs()) if (a.first==c.havoc_epoch) { bool r=q_f(a.second,ok); if (!ok || !r) { pcok=false; break; } } if (!pcok) break;
-        for (id_t d : c.nz) { mpq_class x; if (!q.val_q(d,x) || x==0) { pcok=false; break; } } if (!pcok) break;
+    // the floating fallback must use the same semantics (cut variables = their divisions): hide the solver's values of cut variables for the duration
+    std::vector<double> saved_wit=c.wit; for (auto &kv : c.havoc_of_var) if (kv.first<c.wit.size()) c.wit[kv.first]=std::nan(""); c.ev_memo.clear(); c.rev_memo.clear();
+    struct Restore { Ctx &c; std::vector<double> w; ~Restore() { c.wit=w; c.ev_memo.clear(); c.rev_memo.clear(); } } restore{c,saved_wit};
+    bool dbg=getenv("SYMX_DEBUG")!=nullptr;
+    do { bool fv=q_f(f,ok); if (dbg) std::cerr<<"witness_refutes: obligation value="<<fv<<" ok="<<ok<<"\n"; if (!ok || fv) break;
+        bool pcok=true; size_t pi=0; for (auto &p : c.pc) { bool r=q_rel(p.cmp,p.a,p.b,ok); if (!ok || r!=p.truth) { pcok=false; if (dbg) std::cerr<<"witness_refutes: path condition "<<pi<<" of "<<c.pc.size()<<" not confirmed (ok="<<ok<<" value="<<r<<" wanted="<<p.truth<<" lhs="<<(double)c.ev(p.a)<<" rhs="<<(double)c.ev(p.b)<<")\n"; break; } ++pi; } if (!pcok) break;
+        for (auto &a : assumed_fs()) if (a.first==c.havoc_epoch) { bool r=q_f(a.second,ok); if (!ok || !r) { pcok=false; if (dbg) std::cerr<<"witness_refutes: an assumption is not confirmed\n"; break; } } if (!pcok) break;
+        for (id_t d : c.nz) { mpq_class x; if (q.val_q(d,x)) { if (x==0) { pcok=false; break; } continue; } long double u=c.ev(d); if (u!=u || std::fabs(u)<1e-12L) { pcok=false; if (dbg) std::cerr<<"witness_refutes: a divisor is not confirmed non-zero\n"; break; } } if (!pcok) break;
         res=true; } while (false);
     q.force_defs=false; q.rmemo.clear(); q.amemo.clear(); q.wit_snapshot.clear();
     if (!res) return false;
